@@ -21,9 +21,10 @@
 (* consumes recorded events of the real code, compares each with the       *)
 (* candidates and records which property a deviation violates.             *)
 (***************************************************************************)
-EXTENDS DScalar, DBridge, TLC, Json
+EXTENDS DScalar, DBridge, TLC, Json, IOUtils
 
-Cat   == JsonDeserialize("../catalogue/catalogue.json")
+\* the committed catalogue, or (thorough tier: base catalogue + seeded random derive inputs) the file named by $CATALOGUE
+Cat   == JsonDeserialize(IF "CATALOGUE" \in DOMAIN IOEnv THEN IOEnv.CATALOGUE ELSE "../catalogue/catalogue.json")
 Nodes == Cat.nodes
 
 (* ------------------------------ small helpers --------------------------- *)
